@@ -427,25 +427,43 @@ var removeGate = syncutil.NewGate(20) // arbitrary
 
 // RemoveBlobs removes the blobs from index and pads data with zero bytes
 func (s *storage) RemoveBlobs(ctx context.Context, blobs []blob.Ref) error {
-	batch := s.index.BeginBatch()
-	var wg syncutil.Group
+	// The index rows are deleted first and the pack entries are only
+	// destroyed afterwards: the other way around, a failed index update or
+	// a crash in between leaves rows that point at zeroed bytes.
+	type located struct {
+		br   blob.Ref
+		meta blobMeta
+	}
+	var todo []located
 	for _, br := range blobs {
+		meta, err := s.meta(br)
+		if err != nil {
+			if errors.Is(err, os.ErrNotExist) {
+				continue
+			}
+			return err
+		}
+		todo = append(todo, located{br, meta})
+	}
+	if len(todo) == 0 {
+		return nil
+	}
+	batch := s.index.BeginBatch()
+	for _, l := range todo {
+		batch.Delete(l.br.String())
+	}
+	if err := s.index.CommitBatch(batch); err != nil {
+		return err
+	}
+	var wg syncutil.Group
+	for _, l := range todo {
 		removeGate.Start()
-		batch.Delete(br.String())
 		wg.Go(func() error {
 			defer removeGate.Done()
-			if err := s.delete(br); err != nil && !errors.Is(err, os.ErrNotExist) {
-				return err
-			}
-			return nil
+			return s.delete(l.br, l.meta)
 		})
 	}
-	err1 := wg.Err()
-	err2 := s.index.CommitBatch(batch)
-	if err1 != nil {
-		return err1
-	}
-	return err2
+	return wg.Err()
 }
 
 var statGate = syncutil.NewGate(20) // arbitrary
